@@ -729,3 +729,48 @@ class RetimeEvents(Unit):
                  "a positive BPM and a non-negative value are kept by every step on an event of the domain")
         ex.prove("lemma:step-time-monotone", z3.Implies(z3.And(state_domain(s), evdom, b >= EN.st_beat(s)), EN.st_time(nxt) >= EN.st_time(s)),
                  "time never decreases along the state list when the events come in beat order")
+
+
+# ---------------------------------------------------------------------------
+# thorough tier: CPython cross-check of the encoder on the pure engine functions
+
+
+def engine_xchecks(which):
+    from pyvc.xcheck import EncoderCrossCheck
+    from decimal import Decimal
+    from fractions import Fraction
+
+    def states():
+        e = EN.E()
+        from simfile.timing import Beat
+        out = []
+        for tag in (e.EventTag.BPM, e.EventTag.STOP, e.EventTag.DELAY, e.EventTag.WARP, e.EventTag.STOP_END):
+            for warp in (False, True):
+                out.append(e.TimingState(event=e.TimedEvent(beat=Beat(3, 2), value=Decimal("0.25"), tag=tag, time=e.SongTime(1.5)), bpm=Decimal("90"), warp=warp))
+        return out
+
+    def cases_time_until(tier):
+        e = EN.E()
+        from simfile.timing import Beat
+        for s in states():
+            for b in (Beat(3, 2), Beat(4), Beat(7, 3)):
+                for tg in (e.EventTag.WARP, e.EventTag.DELAY, e.EventTag.DELAY_END, e.EventTag.STOP, e.EventTag.STOP_END):
+                    yield (s, b, tg)
+
+    def cases_beats_until(tier):
+        for s in states():
+            for t in (1.5, 2.0, 1.75, 2.3333, 1.0):
+                yield (s, t)
+
+    def cases_lt(tier):
+        e = EN.E()
+        from simfile.timing import Beat
+        evs = [e.TaggedEvent(Beat(b), Decimal(1), t) for b in (1, 2) for t in (e.EventTag.WARP, e.EventTag.BPM, e.EventTag.STOP_END)]
+        for a in evs:
+            for b in evs:
+                yield (a, b)
+
+    table = {"time_until": EncoderCrossCheck("TimingState.time_until", Q + "TimingState.time_until", lambda: EN.E().TimingState, lambda s, b, t: s.time_until(b, t), cases_time_until),
+             "beats_until": EncoderCrossCheck("TimingState.beats_until", Q + "TimingState.beats_until", lambda: EN.E().TimingState, lambda s, t: s.beats_until(t), cases_beats_until),
+             "lt": EncoderCrossCheck("TaggedEvent.__lt__", Q + "TaggedEvent.__lt__", lambda: EN.E().TaggedEvent, lambda a, b: a < b, cases_lt)}
+    return [table[w] for w in which]
